@@ -235,6 +235,27 @@ def discharge(tr, hyps, goal, stats, budget_s=30.0, quick_ms=3000, rules=None):
         stats.unsat += 1
         stats.by_stage["normal-form:unsat"] = stats.by_stage.get("normal-form:unsat", 0) + 1
         return "unsat", None
+    # the goal (or each of its conjuncts) literally is one of the hypotheses (hash-consed nodes): nothing to solve, and z3 would
+    # have to wade through the non-linear rest of the path condition to see it
+    hypset = set()
+    for h in hyps:
+        hypset.add(h.id)
+        if h.op == "and":
+            hypset.update(x.id for x in h.args)
+
+    def by_hyp(g):
+        if g.op == "true" or g.id in hypset:
+            return True
+        if g.op == "and":
+            return all(by_hyp(x) for x in g.args)
+        if g.op == "or":
+            return any(by_hyp(x) for x in g.args)
+        return False
+    if by_hyp(goal):
+        stats.queries += 1
+        stats.unsat += 1
+        stats.by_stage["is-hypothesis:unsat"] = stats.by_stage.get("is-hypothesis:unsat", 0) + 1
+        return "unsat", None
     env = random_counterexample(hyps, goal)
     if env is not None:
         # a concrete falsifying assignment found by evaluation (exact rational arithmetic): the caller replays it on the
